@@ -24,6 +24,7 @@ import (
 	"os/exec"
 	"path/filepath"
 	"strings"
+	"time"
 
 	webp "github.com/deepteams/webp"
 
@@ -120,8 +121,43 @@ func nrgbaPix(im *image.NRGBA) []byte {
 	return out
 }
 
-// goDecode runs the public decoder on a complete file.
-func goDecode(file []byte) (line string, im *image.NRGBA) {
+// Wall-clock cap for one Go decode: a decoder that loops forever on a valid stream must show up as a
+// failing input, not as a harness time-out.  An entry point that hung twice is not called again (each
+// hang leaves a spinning goroutine behind).
+const decodeCap = 5 * time.Second
+
+var hung = map[string]int{}
+
+func capped(name string, f func() string) string {
+	if hung[name] >= 2 {
+		return "SKIPPED-after-two-hangs"
+	}
+	ch := make(chan string, 1)
+	go func() { ch <- f() }()
+	select {
+	case s := <-ch:
+		return s
+	case <-time.After(decodeCap):
+		hung[name]++
+		return "TIMEOUT"
+	}
+}
+
+// goDecode runs the public decoder on a complete file (under the wall-clock cap).
+func goDecode(file []byte) (string, *image.NRGBA) {
+	var im *image.NRGBA
+	line := capped("webp.Decode", func() string {
+		l, i := goDecodeRaw(file)
+		im = i
+		return l
+	})
+	if line == "TIMEOUT" || strings.HasPrefix(line, "SKIPPED") {
+		return line, nil
+	}
+	return line, im
+}
+
+func goDecodeRaw(file []byte) (line string, im *image.NRGBA) {
 	defer func() {
 		if r := recover(); r != nil {
 			line, im = "PANIC", nil
@@ -138,8 +174,12 @@ func goDecode(file []byte) (line string, im *image.NRGBA) {
 	return digest(n.Rect.Dx(), n.Rect.Dy(), nrgbaPix(n)), n
 }
 
-// goDecodeBare runs lossless.DecodeVP8L on the bare payload.
-func goDecodeBare(payload []byte) (line string) {
+// goDecodeBare runs lossless.DecodeVP8L on the bare payload (under the wall-clock cap).
+func goDecodeBare(payload []byte) string {
+	return capped("lossless.DecodeVP8L", func() string { return goDecodeBareRaw(payload) })
+}
+
+func goDecodeBareRaw(payload []byte) (line string) {
 	defer func() {
 		if r := recover(); r != nil {
 			line = "PANIC"
@@ -422,9 +462,13 @@ func planCases(c *Ctx, r *runner) {
 		file := riffWrap(payload)
 		line, _ := goDecode(file)
 		bare := goDecodeBare(payload)
-		if bare != line {
+		if line == "TIMEOUT" || line == "PANIC" || bare == "TIMEOUT" || bare == "PANIC" {
+			c.Violate("decode-"+strings.ToLower(line+"/"+bare), "the decoder hangs or panics on a valid stream (emitted from a well-formed plan)",
+				map[string]any{"file_hex": hex.EncodeToString(file), "width": p.w, "height": p.h, "decode": line, "bare": bare})
+		} else if bare != line && !strings.HasPrefix(bare, "SKIPPED") && !strings.HasPrefix(line, "SKIPPED") {
 			c.Violate("decode-vs-decodevp8l", "webp.Decode and lossless.DecodeVP8L disagree", map[string]any{"plan": txt, "decode": line, "bare": bare})
 		}
+		writeCorpus(i, p, file)
 		tag := "t=" + p.transformSig()
 		if p.packedIndexNotLast() {
 			tag += ";packed-index-then-transform"
@@ -463,6 +507,18 @@ func planCases(c *Ctx, r *runner) {
 }
 
 var planeSeen = map[string]bool{}
+
+// writeCorpus: with C03_WRITE_CORPUS=<dir> the RIFF-wrapped emitted streams of the covering plans and of
+// the small random plans are written out as foreign valid VP8L files (used by harness/c05).
+func writeCorpus(i int, p *pplan, file []byte) {
+	dir := os.Getenv("C03_WRITE_CORPUS")
+	if dir == "" || len(file) > 6000 {
+		return
+	}
+	os.MkdirAll(dir, 0o755)
+	name := fmt.Sprintf("p%04d_%dx%d_t%s_m%d.webp", i, p.w, p.h, p.orderSig(), p.metaBits)
+	os.WriteFile(filepath.Join(dir, name), file, 0o644)
+}
 
 func main() {
 	Main("c03", func(c *Ctx) {
